@@ -817,7 +817,9 @@ def penalty_mask_vs_geometry(d):
         both_out = ~ins[:, :-1] & ~ins[:, 1:]
         amb = (dist[:, :-1] < 1e-7) | (dist[:, 1:] < 1e-7)
         n += pm.size
-        for i, j in np.argwhere(both_in & (pm != 0.0))[:2]:
+        # a face within 1e-7 of the wall (a target face of a non-orthogonal grid) may fall on either
+        # side by rounding: the outside fraction of such a cell is then 0 up to (1e-7 / cell length)
+        for i, j in np.argwhere(both_in & np.where(amb, pm > 1e-5, pm != 0.0))[:2]:
             fails.append(dict(region=r["name"], i=int(i), j=int(j), penalty_mask=float(pm[i, j]), expected=0.0))
         for i, j in np.argwhere(both_out & ~amb & (pm != 1.0))[:2]:
             fails.append(dict(region=r["name"], i=int(i), j=int(j), penalty_mask=float(pm[i, j]), expected=1.0))
